@@ -256,23 +256,119 @@ class SimLock:
         return False
 
 
+class _LazyFuture:
+    """Future of SimExecutor.submit: the task runs (under the scheduler, together with every other pending submission of
+    its executor) when somebody first needs an answer - result(), exception(), done(), as_completed(), wait(), or the
+    executor's shutdown / __exit__."""
+
+    def __init__(self, ex):
+        self._ex = ex
+        self._done = False
+        self._res = None
+        self._exc = None
+        self.completion_index = None
+        self._callbacks = []
+
+    def _settle(self):
+        if not self._done:
+            self._ex._flush()
+
+    def result(self, timeout=None):
+        self._settle()
+        if self._exc is not None:
+            raise self._exc
+        return self._res
+
+    def exception(self, timeout=None):
+        self._settle()
+        return self._exc
+
+    def done(self):
+        self._settle()
+        return True
+
+    def running(self):
+        return False
+
+    def cancelled(self):
+        return False
+
+    def cancel(self):
+        return False
+
+    def add_done_callback(self, fn):
+        if self._done:
+            fn(self)
+        else:
+            self._callbacks.append(fn)
+
+
 class SimExecutor:
     def __init__(self, sched, max_workers=None):
         self.s = sched
         self.max_workers = max_workers
+        self.pending = []
 
     def __enter__(self):
         return self
 
     def __exit__(self, *a):
+        self._flush()
         return False
 
     def map(self, fn, *iterables):
         items = list(zip(*iterables))
         return self.s.run_map(lambda args: fn(*args), items, self.max_workers)
 
+    def submit(self, fn, *a, **kw):
+        f = _LazyFuture(self)
+        self.pending.append((f, fn, a, kw))
+        return f
+
+    def _flush(self):
+        batch, self.pending = self.pending, []
+        if not batch:
+            return
+        order = []
+
+        def run(item):
+            f, fn, a, kw = item
+            try:
+                f._res = fn(*a, **kw)
+            except BaseException as e:  # delivered through the future
+                f._exc = e
+            f._done = True
+            order.append(f)             # completion order under the seeded schedule
+            f.completion_index = (self.s.maps, len(order))
+        self.s.run_map(run, batch, self.max_workers)
+        for f in order:
+            for cb in f._callbacks:
+                cb(f)
+
     def shutdown(self, wait=True, **kw):
-        pass
+        self._flush()
+
+
+def sim_as_completed(fs, timeout=None):
+    fs = list(fs)
+    for f in fs:
+        if isinstance(f, _LazyFuture):
+            f._settle()
+    lazy = sorted([f for f in fs if isinstance(f, _LazyFuture)], key=lambda f: f.completion_index)
+    for f in lazy:
+        yield f
+    for f in fs:
+        if not isinstance(f, _LazyFuture):
+            yield f
+
+
+def sim_wait(fs, timeout=None, return_when="ALL_COMPLETED"):
+    import collections
+    fs = list(fs)
+    for f in fs:
+        if isinstance(f, _LazyFuture):
+            f._settle()
+    return collections.namedtuple("DoneAndNotDoneFutures", "done not_done")(set(fs), set())
 
 
 class scheduled:
@@ -287,6 +383,8 @@ class scheduled:
         self._cf, self._th = cf, threading
         self._old_exec = cf.ThreadPoolExecutor
         self._old_lock = threading.Lock
+        self._old_ac, self._old_wait = cf.as_completed, cf.wait
+        cf.as_completed, cf.wait = sim_as_completed, sim_wait
         s = self.s
         real_lock = _thread.allocate_lock
 
@@ -306,4 +404,5 @@ class scheduled:
     def __exit__(self, *a):
         self._cf.ThreadPoolExecutor = self._old_exec
         self._th.Lock = self._old_lock
+        self._cf.as_completed, self._cf.wait = self._old_ac, self._old_wait
         return False
